@@ -74,8 +74,8 @@ def facts_path(config="ram", repo=REPO, cache=CACHE):
             return out, th, False
         t0 = time.time()
         _extract(out, config, repo, cache)
-        # keep the cache small: drop fact files of other tree states
-        for f in glob.glob(os.path.join(cache, "facts", "*-%s.json" % config)):
+        # keep the cache small: drop fact files of other tree states (of the main tree only)
+        for f in glob.glob(os.path.join(cache, "facts", "*-%s.json" % config)) if repo == REPO else []:
             if f != out:
                 try:
                     os.unlink(f)
